@@ -91,7 +91,11 @@ fn grammar_untagged(rng: &mut Rng, idx: u64) -> GCase {
         0..=2 => {
             let gen = RxGen { allow_algebra: false, allow_raw_not: false, max_depth: 3 };
             let rx = gen_nonempty(rng, &gen);
-            GCase::regex(&format!("genrx{idx}"), &rx.to_regex()).tag("gen_regex")
+            let mut text = rx.to_regex();
+            if text.contains('/') && rng.chance(1, 2) {
+                text = text.replace('/', "\\/");
+            }
+            GCase::regex(&format!("genrx{idx}"), &text).tag("gen_regex")
         }
         3..=4 => {
             let gen = RxGen { allow_algebra: true, allow_raw_not: false, max_depth: 3 };
